@@ -31,8 +31,13 @@ def make_matcher(mp, cfg):
         for k in ("dist_noise", "dist_noise_ne"):
             if c[k] is not None:
                 kw[k] = c[k]
-        return DistanceMatcher(mp, **kw)
-    return SimpleMatcher(mp, only_edges=(c["fam"] == "S"), **kw)
+        m = DistanceMatcher(mp, **kw)
+    else:
+        m = SimpleMatcher(mp, only_edges=(c["fam"] == "S"), **kw)
+    if c["maxnb"] is not None:
+        # public attribute (default 100): the maximal depth of a non-emitting run
+        m.non_emitting_states_maxnb = c["maxnb"]
+    return m
 
 
 def kind_of(cfg):
